@@ -371,6 +371,20 @@ func scenarioConn(c *harness.Ctx) {
 		return ps
 	}
 	ab, ba := mk(1), mk(2)
+	if tp.Bool(1, 120) {
+		// one packet close to the protocol maximum, incompressible
+		pConnHuge.Hit()
+		id := gen.PacketID(tp)
+		data := tp.Bytes(1<<21 - 5 - tp.Choose(700))
+		x := tp.U64()
+		for i := range data {
+			x ^= x << 13
+			x ^= x >> 7
+			x ^= x << 17
+			data[i] = byte(x)
+		}
+		ab = append(ab, pkt{id, data})
+	}
 	// The first plainAB/plainBA packets of each direction are exchanged before
 	// encryption is switched on (as in the login flow); each side switches its
 	// writer right after sending them and its reader right after reading the
@@ -524,3 +538,5 @@ var prop = &harness.Property{
 }
 
 func TestWorker(t *testing.T) { harness.Main(t, prop) }
+
+var pConnHuge = simrt.NewProbe("conn.packet.near.protocol.maximum.incompressible")
